@@ -13,8 +13,8 @@ def sh(cmd, **kw):
     return subprocess.run(cmd, shell=True, capture_output=True, text=True, **kw)
 
 
-def verify(out_dir, letter, prop):
-    sid = '%s-%s' % (prop, letter)
+def verify(out_dir, letter, prop, tag=''):
+    sid = '%s-%s%s' % (prop, tag, letter)
     wt = tempfile.mkdtemp(prefix='seedwt_', dir='/tmp')
     os.rmdir(wt)
     assert sh('git -C %s worktree add -q --detach %s HEAD' % (REPO, wt)).returncode == 0
@@ -77,5 +77,5 @@ def detect(sid, props):
 
 
 if __name__ == '__main__':
-    if sys.argv[1] == 'verify': verify(sys.argv[2], sys.argv[3], sys.argv[4])
+    if sys.argv[1] == 'verify': verify(*sys.argv[2:6])
     elif sys.argv[1] == 'detect': detect(sys.argv[2], sys.argv[3:])
